@@ -35,6 +35,9 @@ class FakePoller:
         self.registered.append(s)
 
     def unregister(self, s):
+        if s not in self.registered:
+            raise KeyError(s)  # what zmq.Poller.unregister does for a socket it does not know
+        self.registered.remove(s)
         self.unregistered.append(s)
 
 
@@ -100,6 +103,7 @@ class Gateway(Harness):
         for j in jids:
             socks[j] = Sock()
             router.jobs[j] = Job(socks[j], JobProgressStarted, -1, {})
+            poller.register(socks[j])
         seen: dict[str, list] = {j: [] for j in jids}  # (timestamp, progress) of progress reports received
         uploaded: dict = {}
         shut = set()
